@@ -440,7 +440,7 @@ func (c *Client) Delete(_ context.Context, obj client.Object, opts ...client.Del
 	if err := c.preFault(call, fault); err != nil {
 		return err
 	}
-	err = c.S.doDelete(gvk, obj.GetNamespace(), obj.GetName(), call.PreUID, call.PreRV, call.Propagation, reqOpts{dryRun: call.DryRun})
+	err = c.S.doDelete(gvk, obj.GetNamespace(), obj.GetName(), call.PreUID, call.PreRV, call.Propagation, reqOpts{dryRun: call.DryRun, immediate: do.GracePeriodSeconds != nil && *do.GracePeriodSeconds == 0})
 	call.Post = c.S.Peek(k)
 	return c.finishWrite(call, fault, nil, nil, err)
 }
